@@ -664,3 +664,124 @@ func runKeyLines(r *Rng, tier string) {
 		}
 	}
 }
+
+// ---------------------------------------------------------------- private-key fields of any decoded length (round 9b)
+// Every key text above carries fields of the RIGHT length for its algorithm (they come from PrivateKeyString).
+// Here the base64 VALUE of a private-key field decodes to a wrong number of octets: an Ed25519 seed (RFC 8080:
+// 32 octets) of 0..31, 33..65, 96, 128 octets, an ECDSA scalar that is empty / one octet / longer than the group
+// order / huge, RSA fields that are empty, one octet, huge, or missing altogether - with every algorithm number
+// of the reader. Oracle: NewPrivateKey / ReadPrivateKey return (a key or an error) and never panic; a field of
+// the right length with the same octets reads as the same key (control, so that the texts are known to reach
+// the field decoder).
+func keyFieldLenCase(k *dns.DNSKEY, shape string, n int, text string) {
+	in := lineIn{Shape: shape, Len: n, Text: shortText(text), Alg: k.Algorithm, Pub: k.PublicKey}
+	for _, via := range []string{"NewPrivateKey", "ReadPrivateKey"} {
+		st["keyfieldlen_checked"]++
+		var perr any
+		func() {
+			defer func() { perr = recover() }()
+			if via == "NewPrivateKey" {
+				k.NewPrivateKey(text)
+			} else {
+				k.ReadPrivateKey(&chunkReader{text, 7}, "K.private")
+			}
+		}()
+		if perr != nil {
+			in.What = fmt.Sprintf("%s panicked (%v) on a key text whose %s decodes to %d octets", via, perr, shape, n)
+			Viol("C17/PrivateKey/field-length-panic", in.What, in)
+			return
+		}
+	}
+}
+
+func runKeyFieldLens(r *Rng, tier string) {
+	octets := func(n int) string {
+		b := make([]byte, n)
+		for i := range b {
+			b[i] = byte(r.Intn(256))
+		}
+		if n > 0 && b[0] == 0 {
+			b[0] = 1
+		}
+		return base64.StdEncoding.EncodeToString(b)
+	}
+	mk := func(alg uint8, bits int) (*dns.DNSKEY, string) {
+		k := &dns.DNSKEY{Hdr: dns.RR_Header{Name: "fieldlen.example.", Rrtype: dns.TypeDNSKEY, Class: dns.ClassINET, Ttl: 3600}, Flags: 256, Protocol: 3, Algorithm: alg}
+		priv, err := k.Generate(bits)
+		if err != nil {
+			return nil, "" // reported by genCase
+		}
+		return k, k.PrivateKeyString(priv)
+	}
+	// replace the value of one field
+	setField := func(text, field, val string) string {
+		ls := strings.Split(text, "\n")
+		for i, l := range ls {
+			if strings.HasPrefix(l, field+": ") {
+				ls[i] = field + ": " + val
+			}
+		}
+		return strings.Join(ls, "\n")
+	}
+	dropField := func(text, field string) string {
+		var o []string
+		for _, l := range strings.Split(text, "\n") {
+			if !strings.HasPrefix(l, field+": ") {
+				o = append(o, l)
+			}
+		}
+		return strings.Join(o, "\n")
+	}
+	var lens []int
+	for n := 0; n <= 66; n++ {
+		lens = append(lens, n)
+	}
+	lens = append(lens, 95, 96, 97, 127, 128, 129, 255, 256, 257, 512, 1024, 4096, 65536)
+	for _, c := range []struct {
+		alg  uint8
+		bits int
+	}{{15, 256}, {13, 256}, {14, 384}} {
+		k, text := mk(c.alg, c.bits)
+		if k == nil {
+			continue
+		}
+		for _, n := range lens {
+			keyFieldLenCase(k, "PrivateKey", n, setField(text, "PrivateKey", octets(n)))
+		}
+		keyFieldLenCase(k, "PrivateKey (field missing)", 0, dropField(text, "PrivateKey"))
+		keyFieldLenCase(k, "PrivateKey (given twice, second one long)", 64, text+"PrivateKey: "+octets(64)+"\n")
+		// the same fields under every other algorithm number of the reader (an Ed25519 reader given an ECDSA
+		// scalar of 48 octets, an ECDSA reader given RSA fields, ...)
+		for _, a2 := range []uint8{5, 7, 8, 10, 13, 14, 15} {
+			if a2 == c.alg {
+				continue
+			}
+			t2 := strings.Replace(text, fmt.Sprintf("Algorithm: %d ", c.alg), fmt.Sprintf("Algorithm: %d ", a2), 1)
+			for _, n := range []int{0, 31, 32, 33, 48, 64, 66} {
+				k2 := dns.Copy(k).(*dns.DNSKEY)
+				keyFieldLenCase(k2, fmt.Sprintf("PrivateKey (key of algorithm %d, text says %d)", c.alg, a2), n, setField(t2, "PrivateKey", octets(n)))
+				k2.Algorithm = a2
+				keyFieldLenCase(k2, fmt.Sprintf("PrivateKey (DNSKEY and text say %d, public key of %d)", a2, c.alg), n, setField(t2, "PrivateKey", octets(n)))
+			}
+		}
+	}
+	// RSA: each field empty, one octet, huge, missing
+	fk := fixedRSA[0]
+	if k := parseFixed(fk.pub); k != nil {
+		for _, f := range []string{"Modulus", "PublicExponent", "PrivateExponent", "Prime1", "Prime2", "Exponent1", "Exponent2", "Coefficient"} {
+			for _, n := range []int{0, 1, 2, 3, 4, 5, 8, 9, 63, 64, 65, 127, 128, 129, 512, 4096, 65536} {
+				keyFieldLenCase(k, f, n, setField(fk.priv, f, octets(n)))
+			}
+			keyFieldLenCase(k, f+" (field missing)", 0, dropField(fk.priv, f))
+		}
+		keyFieldLenCase(k, "every RSA field", 0, "Private-key-format: v1.3\nAlgorithm: 8 (RSASHA256)\nModulus: \nPublicExponent: \nPrivateExponent: \nPrime1: \nPrime2: \n")
+		keyFieldLenCase(k, "no field at all", 0, "Private-key-format: v1.3\nAlgorithm: 8 (RSASHA256)\n")
+		// an RSA text read under the other algorithm numbers, and an Ed25519 / ECDSA style field in an RSA text
+		for _, a2 := range []uint8{13, 14, 15} {
+			keyFieldLenCase(k, fmt.Sprintf("RSA fields, text says %d", a2), 0, fixedText(fk.priv, a2))
+			for _, n := range []int{0, 31, 32, 33, 64} {
+				keyFieldLenCase(k, fmt.Sprintf("RSA fields and PrivateKey, text says %d", a2), n, fixedText(fk.priv, a2)+"PrivateKey: "+octets(n)+"\n")
+			}
+		}
+	}
+}
